@@ -103,6 +103,95 @@ def job(chk, item):
         chk.sample({'category': cat, 'shape': shape, 'orderings x iteration modes': len({(id(f), sym) for f, sym, _ in runs}), 'paths': len(runs)})
 
 
+def job_full(chk, shapes):
+    """the whole pipeline generate_report (what the binary calls): the text written to solstat_report.md may not depend on the
+    insertion / discovery order either"""
+    e = chk.engine()
+    f = e.func('generate_report')
+    for shape in shapes:
+        base_f = rl.Findings('opt', shape)
+        empty_v, empty_q = rl.Findings('vul', []), rl.Findings('qa', [])
+        runs = []
+        for (pp, fp) in orders(shape, 6 if chk.quick else 24):
+            ff = rl.Findings.__new__(rl.Findings)
+            ff.cat, ff.base = 'opt', base_f.base
+            ff.items = [(base_f.items[i][0], [base_f.items[i][1][j] for j in fp[k]]) for k, i in enumerate(pp)]
+            try:
+                paths = e.explore(lambda en: en.call_mir(f, [empty_v.value(), ff.value(), empty_q.value()]), base_constraints=base_f.base, max_paths=20000)
+            except Exception as ex:
+                chk.undecide('generate_report %r: %s' % (shape, ex)); paths = []
+            for r in paths:
+                runs.append((ff, r))
+        if any(r.outcome == 'unsupported' for _, r in runs):
+            chk.undecide('generate_report %r: %s' % (shape, [r.value for _, r in runs if r.outcome == 'unsupported'][0]))
+            native_full_orders(chk, base_f)
+            continue
+        texts = lambda r: r.extra.get('writes', [(None, None)])[0][1]
+        firsts = [(ff, r) for ff, r in runs if ff is runs[0][0] and r.outcome == 'return']
+        for ff, r in runs:
+            if r.outcome != 'return':
+                continue
+            for f0, r0 in firsts:
+                if r is r0:
+                    continue
+                s = z3.Solver(); s.add(*base_f.base); s.add(*r.pc); s.add(*r0.pc)
+                chk.queries += 1
+                if s.check() != z3.sat:
+                    continue
+                if rl.flat(texts(r)) == rl.flat(texts(r0)):
+                    chk.ok(); continue
+                m = differ_query(s, texts(r), texts(r0))
+                if m is None:
+                    chk.ok(); continue
+                if m == 'unknown':
+                    chk.undecide('generate_report %r: solver unknown' % (shape,)); continue
+                specs = [f0.spec(m), ff.spec(m)]
+                seen = native_full(chk, specs)
+                if len(seen) <= 1:
+                    chk.broken('generate_report: engine found two different reports for %r, the real generator writes the same file' % (base_f.concretize(m),))
+                chk.violation('full:report-order', 'generate_report writes %d different files for the SAME findings %r given in different orders (%r)' % (len(seen), base_f.concretize(m), specs),
+                              {'job': 'fullreport', 'findings_orders': specs})
+        chk.sample({'generate_report': shape, 'orders': len({id(ff) for ff, _ in runs})})
+
+
+def native_full(chk, specs):
+    import os
+    seen = set()
+    for rep in range(4):
+        for sp in specs:
+            d = os.path.join(chk.native.dir, 'full%d' % chk.native.n)
+            chk.native.n += 1
+            os.makedirs(d)
+            r = chk.native.run([['fullreport', '', sp, '', d]])[0]
+            seen.add(unhex(r[1]) if r[0] == 'OK' else 'PANIC ' + str(r[1:]))
+    return seen
+
+
+def native_full_orders(chk, base_f):
+    names = [nm.rank for _, es in base_f.items for nm, _ in es]
+    lines = [ls for _, es in base_f.items for _, ls in es]
+    extras = [[], [names[0] == n for n in names[1:]]]
+    if len(names) > 2:
+        extras.append([names[0] == names[1], names[0] != names[2]] + [a == b for a, b in zip(lines[0], lines[1])])
+    for extra in extras:
+        s = z3.Solver(); s.add(*base_f.base); s.add(*extra)
+        if s.check() != z3.sat:
+            continue
+        m = s.model()
+        specs = []
+        for (pp, fp) in orders(base_f.shape, 12):
+            ff = rl.Findings.__new__(rl.Findings)
+            ff.cat = 'opt'
+            ff.items = [(base_f.items[i][0], [base_f.items[i][1][j] for j in fp[k]]) for k, i in enumerate(pp)]
+            specs.append(ff.spec(m))
+        seen = native_full(chk, specs)
+        chk.states += len(specs)
+        if len(seen) > 1:
+            chk.violation('full:report-order', 'generate_report writes %d different files for the same findings %r given in different orders' % (len(seen), base_f.concretize(m)),
+                          {'job': 'fullreport', 'findings_orders': specs})
+            return
+
+
 def native_texts(chk, cat, specs, repeat):
     jobs = []
     for sp in specs:
@@ -175,6 +264,10 @@ def body(chk):
         for k in range(0, len(lst), 2):
             items.append((cat, lst[k:k + 2]))
     chk.parallel(job, items)
+    full_shapes = [[(ot[3], [1, 1, 1])], [(ot[7], [1, 1]), (ot[2], [1])]]
+    if not chk.quick:
+        full_shapes.append([(ot[5], [2, 1, 1])])
+    chk.parallel(job_full, [[s_] for s_ in full_shapes])
 
 
 if __name__ == '__main__':
